@@ -110,6 +110,20 @@ func (rs *RelayState) UpdateRelayForByIpState(vpnIp netip.Addr, state int) {
 	}
 }
 
+// DisestablishRelayForByIp marks an Established relay to vpnIp as Disestablished (the tunnel carrying
+// its other leg went away). A relay that was never established keeps its state: a Requested one has
+// not learned the peer's index yet and must not become completable without the peer's answer.
+func (rs *RelayState) DisestablishRelayForByIp(vpnIp netip.Addr) {
+	rs.Lock()
+	defer rs.Unlock()
+	if r, ok := rs.relayForByAddr[vpnIp]; ok && r.State == Established {
+		newRelay := *r
+		newRelay.State = Disestablished
+		rs.relayForByAddr[newRelay.PeerAddr] = &newRelay
+		rs.relayForByIdx[newRelay.LocalIndex] = &newRelay
+	}
+}
+
 func (rs *RelayState) UpdateRelayForByIdxState(idx uint32, state int) {
 	rs.Lock()
 	defer rs.Unlock()
@@ -633,13 +647,13 @@ func (hm *HostMap) QueryVpnAddrsRelayFor(targetIps []netip.Addr, relayHostIp net
 func (hm *HostMap) unlockedDisestablishVpnAddrRelayFor(hi *HostInfo) {
 	for _, relayHostIp := range hi.relayState.CopyRelayIps() {
 		for _, h := range hm.unlockedGetHostList(relayHostIp) {
-			h.relayState.UpdateRelayForByIpState(hi.vpnAddrs[0], Disestablished)
+			h.relayState.DisestablishRelayForByIp(hi.vpnAddrs[0])
 		}
 	}
 	for _, rs := range hi.relayState.CopyAllRelayFor() {
 		if rs.Type == ForwardingType {
 			for _, h := range hm.unlockedGetHostList(rs.PeerAddr) {
-				h.relayState.UpdateRelayForByIpState(hi.vpnAddrs[0], Disestablished)
+				h.relayState.DisestablishRelayForByIp(hi.vpnAddrs[0])
 			}
 		}
 	}
